@@ -32,6 +32,45 @@ Inductive conforms : val -> ty -> Prop :=
 | CNewType n t v : conforms v t -> conforms v (TNewType n t)
 | CAnnot t v : conforms v t -> conforms v (TAnnot t).
 
+(* ---- C01: x is a value of t that the round trip is documented for.
+   Exact classes everywhere; Any-typed and untyped positions hold None or atoms (a structured value there
+   is unstructured by its runtime class and cannot come back); set elements and mapping keys are of
+   hashable leaf types and the containers are what Python would have built (elements / keys hashable
+   and pairwise not ==); enum members are identified by atomic, pairwise distinct values; instances have
+   every attribute set.  [ann]: may Annotated[...] occur (BaseConverter has no structure hook for it). *)
+Variable ann : bool.
+Definition atomic (v : val) : bool := match v with VNone | VAtom _ _ => true | _ => false end.
+
+Fixpoint key_ty (t : ty) : bool :=
+  match t with
+  | TPrim _ | TEnum _ | TLit _ => true
+  | TNewType _ t' | TAnnot t' => key_ty t'
+  | _ => false
+  end.
+
+Definition set_like (l : list val) : Prop := set_of_list [] l = Ok l.
+Definition dict_like (kvs : list (val * val)) : Prop := dict_of_pairs [] kvs = Ok kvs.
+
+Inductive rt_value : val -> ty -> Prop :=
+| RAny v : atomic v = true -> rt_value v TAny
+| RPrim p e : rt_value (VAtom p e) (TPrim p)
+| REnum en i k e : nth_error (e_enum E en) (N.to_nat i) = Some (VAtom k e) ->
+                   find_member (e_enum E en) (VAtom k e) = Some i -> rt_value (VEnum en i) (TEnum en)
+| RLit v vs : vmem v vs = true -> atomic v = true -> rt_value v (TLit vs)
+| RList l t : Forall (fun x => rt_value x t) l -> rt_value (VList l) (TList t)
+| RTupleHom l t : Forall (fun x => rt_value x t) l -> rt_value (VTuple l) (TTupleHom t)
+| RTuple l ts : Forall2 rt_value l ts -> rt_value (VTuple l) (TTuple ts)
+| RSet l t : key_ty t = true -> Forall (fun x => rt_value x t) l -> set_like l -> rt_value (VSet l) (TSet t)
+| RFrozenSet l t : key_ty t = true -> Forall (fun x => rt_value x t) l -> set_like l -> rt_value (VFrozenSet l) (TFrozenSet t)
+| RDict kvs kt vt : key_ty kt = true -> Forall (fun kv => rt_value (fst kv) kt /\ rt_value (snd kv) vt) kvs -> dict_like kvs ->
+                    rt_value (VDict kvs) (TDict kt vt)
+| ROptNone t : rt_value VNone (TOpt t)
+| ROptSome v t : rt_value v t -> rt_value v (TOpt t)
+| RClass c cd i : e_class E c = Some cd -> map fst i = map f_name (cd_fields cd) ->
+                  Forall (fun nv => rt_value (snd nv) (field_ty cd (fst nv))) i -> rt_value (VInst c i) (TClass c)
+| RNewType n t v : rt_value v t -> rt_value v (TNewType n t)
+| RAnnot t v : ann = true -> rt_value v t -> rt_value v (TAnnot t).
+
 (* ---- C03: primitive data *)
 Fixpoint primitive (v : val) : bool :=
   match v with
